@@ -526,6 +526,50 @@ func runC03(c *kit.Ctx) {
 		c.Check(e == nil, dlit, "dial-exits-fail", dlit.Pos(), "every exit of the dial literal either started the reader or called fail", "the dial literal can return without starting the reader and without failing the client: Dial reports success on a dead connection: "+c.BlockPath(e))
 	}
 
+	// a failed (possibly partial) write leaves the stream unusable: it must be a connection failure
+	for _, w := range append(kit.Calls(send, kit.M("region", "*client", "write")), kit.Calls(send, "(*net.Buffers).WriteTo")...) {
+		var errV ssa.Value = w.Value()
+		if w.Common().Signature().Results().Len() == 2 {
+			errV = kit.ExtractOf(w.Value(), 1)
+		}
+		_ = errV
+	}
+	{
+		// every return of send that carries a non-nil error after the registration is a ServerError
+		// except the marshalling error (nothing was written yet)
+		regs := kit.Calls(send, kit.M("region", "*client", "registerRPC"))
+		var firstWrite ssa.Instruction
+		for _, w := range append(kit.Calls(send, kit.M("region", "*client", "write")), kit.Calls(send, "(*net.Buffers).WriteTo")...) {
+			if firstWrite == nil || kit.Dominates(w.(ssa.Instruction), firstWrite) {
+				firstWrite = w.(ssa.Instruction)
+			}
+		}
+		good := len(regs) == 1 && firstWrite != nil
+		if good {
+			kit.Instrs(send, func(in ssa.Instruction) {
+				r, ok := in.(*ssa.Return)
+				if !ok {
+					return
+				}
+				ev := returnedError(r)
+				if ev == nil || kit.IsNilConst(kit.Root(ev)) {
+					return
+				}
+				// returns that can only happen after a write was attempted
+				afterWrite := false
+				for _, w := range append(kit.Calls(send, kit.M("region", "*client", "write")), kit.Calls(send, "(*net.Buffers).WriteTo")...) {
+					if kit.Reaches(w.(ssa.Instruction), r) {
+						afterWrite = true
+					}
+				}
+				if afterWrite && !isServerErrorValue(p, ev) {
+					good = false
+				}
+			})
+		}
+		c.Check(good, send, "write-error-is-fatal", send.Pos(), "every error send returns after it attempted a write is a ServerError (the connection is failed)", "send can report a failed - possibly partial - write with an error that does not fail the connection: later frames are written after a torn one and the stream stays out of sync")
+	}
+
 	// ---- R7 ---------------------------------------------------------------
 	c.StartRule("R7", "registration after serialisation, before the write", 3)
 	regs := kit.Calls(send, kit.M("region", "*client", "registerRPC"))
